@@ -14,6 +14,7 @@ A *history* is a list of segment specs (plain dicts, JSON-friendly):
      ['FULL', type_name, n]            fixed-width type, n values per chunk
      ['FULL', 'String', n, B]          n strings per chunk, B bytes of text per chunk
      ['FULL', 'String', n, B, [hex..]] the same with explicit values (hex of the UTF-8 bytes)
+     ['FULL', type, n, [hex..]]        fixed-width type with explicit values (canonical little-endian hex; k*n values, chunk c takes block c mod k)
      ['SAME']                          raw data index "matches previous" (0x00000000)
      ['NODATA']                        no raw data (0xFFFFFFFF)
      ['DAQMX', {...}]                  DAQmx raw data index, see daqmx_index()
@@ -198,7 +199,11 @@ def idx_of(enc):
                 d['vals'] = list(enc[4])
                 assert len(d['vals']) == n and sum(len(v) // 2 for v in d['vals']) == d['B'], 'explicit string values do not match n / B'
             return d
-        return {'k': 'std', 't': t, 'n': n}
+        d = {'k': 'std', 't': t, 'n': n}
+        if len(enc) > 3:       # explicit canonical (little-endian) values as hex; chunk c takes values c*n .. c*n+n-1, cyclically
+            d['vals'] = list(enc[3])
+            assert n and len(d['vals']) % n == 0 and all(len(v) // 2 == TYPES[t][1] for v in d['vals']), 'explicit values do not match n / type'
+        return d
     if enc[0] == 'DAQMX':
         d = dict(enc[1])
         d['k'] = 'daqmx'
@@ -367,6 +372,9 @@ def interpret(history, seed=0, lenient=False, filler_phase=0):
                         vals = [bytes.fromhex(v) for v in idx['vals']]
                     elif idx['t'] == 'String':
                         vals = string_values(idx['n'], idx['B'], path, k, seed)
+                    elif 'vals' in idx:
+                        st = (ci * idx['n']) % len(idx['vals'])
+                        vals = [bytes.fromhex(v) for v in idx['vals'][st:st + idx['n']]]
                     else:
                         vals = [fixed_value(idx['t'], path, k + j, seed) for j in range(idx['n'])]
                     counters[path] = k + idx['n']
